@@ -1,4 +1,5 @@
 import Cardutil.Py.Int
+import Cardutil.Py.Decimal
 import Cardutil.Py.Codec
 import Cardutil.Py.Time
 import Cardutil.Model.Card
@@ -51,6 +52,7 @@ inductive Val
   | int (i : Int)
   | bytes (b : Bytes)
   | dt (d : DateTime)
+  | dec (d : Py.Dec)
   deriving Repr, DecidableEq
 
 inductive Key
@@ -216,13 +218,21 @@ def stringToPyType (env : Env) (f : FieldCfg) (t : Text) : Outcome Val :=
   | .int => match pyInt env.classes t with
     | some i => .ok (.int i)
     | none => .escape .valueError
-  | .decimal => .escape .other      -- decimal.InvalidOperation etc.: not modelled (no packaged field uses it)
+  | .decimal => match pyDecimal env.classes t with
+    | some d => .ok (.dec d)
+    | none => .escape .decimalError      -- decimal.InvalidOperation (an ArithmeticError, not a ValueError)
   | .datetime => match strptime env.classes f.dateFmt t with
     | some d => .ok (.dt d)
     | none => .escape .valueError
 
 def isValueError : ExcKind → Bool
   | .valueError => true
+  | _ => false
+
+/-- what the typed conversion's handler catches: `except (ValueError, decimal.InvalidOperation)` -/
+def isConvError : ExcKind → Bool
+  | .valueError => true
+  | .decimalError => true
   | _ => false
 
 def isValueOrStructError : ExcKind → Bool
@@ -277,7 +287,7 @@ def decodeTextField (env : Env) (bit : Nat) (f : FieldCfg) (raw : Bytes) : Outco
   match env.codec.decode raw with
   | none => .dataError
   | some text =>
-    ((stringToPyType env f (transform f text)).catchAs isValueError).bind (fun v =>
+    ((stringToPyType env f (transform f text)).catchAs isConvError).bind (fun v =>
       (derived env bit f v).bind (fun sub => .ok (Dict.update [(Key.de bit, v)] sub)))
 
 /-- `_iso8583_to_field`: returns the entries for this element and the message increment -/
@@ -336,6 +346,7 @@ def present : Val → Bool
   | .int _ => true
   | .bytes b => !b.isEmpty
   | .dt _ => true
+  | .dec _ => true
 
 /-- `_pytype_to_string`: the value as text (or bytes, passed through) -/
 def pyTypeToString (env : Env) (f : FieldCfg) (v : Val) : Outcome Val :=
